@@ -71,8 +71,15 @@ type callEff struct {
 }
 
 func (ex *executor) contractFor(callee *ssa.Function) *Contract {
-	c := ex.eng.cs.Funcs[fnKey(callee)]
-	return c
+	k := fnKey(callee)
+	if c := ex.eng.cs.Funcs[k]; c != nil {
+		return c
+	}
+	// package-wide assumed contract: "pkg/path.*"
+	if c := ex.eng.cs.Funcs[pkgOfKey(k)+".*"]; c != nil {
+		return c
+	}
+	return nil
 }
 
 // callEffects: static approximation of what a call may write (used for loop havoc).
@@ -149,6 +156,9 @@ func (eng *Engine) staticEffects(fn *ssa.Function, depth int) callEff {
 		defer func() {
 			if r := recover(); r != nil {
 				eff.all = true
+				if os.Getenv("GOVC_DEBUG") != "" {
+					fmt.Printf("DEBUG staticEffects(%s): panic %v\n", fnKey(fn), r)
+				}
 			}
 		}()
 		for _, b := range fn.Blocks {
@@ -170,6 +180,9 @@ func (eng *Engine) staticEffects(fn *ssa.Function, depth int) callEff {
 					sub := ex.callEffects(t.Common())
 					if sub.all {
 						eff.all = true
+						if os.Getenv("GOVC_DEBUG") != "" {
+							fmt.Printf("DEBUG staticEffects(%s): call %s has unknown effects\n", fnKey(fn), t.Common().String())
+						}
 					}
 					for k := range sub.classes {
 						eff.classes[k] = true
@@ -372,12 +385,20 @@ func (ex *executor) applyContract(st *state, c *Contract, key string, names []st
 		}
 	}
 	env := &specEnv{ex: ex, st: st, old: pre, vars: vars, pkgPath: pkgPath, calleeCtx: true}
+	env.callID = FreshVar("callid", BV(64))
 	short := shortFnKey(key)
 	if i := strings.LastIndex(short, "/"); i >= 0 {
 		short = short[i+1:]
 	}
 	for i, rq := range c.Requires {
 		t := ex.evalBoolEnv(rq, env)
+		if rc := r.contract; rc != nil && rc.TrustPre != nil {
+			if why, ok := rc.TrustPre[short+" "+clauseLabel(rq, i)]; ok {
+				r.abstracted[fmt.Sprintf("precondition %s of %s assumed at the call site: %s", clauseLabel(rq, i), short, why)]++
+				ex.assume(st, t)
+				continue
+			}
+		}
 		ex.addObligation(st, "pre", fmt.Sprintf("call %s requires %s", short, clauseLabel(rq, i)), Implies(st.pc, t), pos)
 		ex.assume(st, t)
 	}
@@ -427,6 +448,10 @@ func (ex *executor) applyContract(st *state, c *Contract, key string, names []st
 		bindResults(vars, res, results)
 	}
 	for _, en := range c.Ensures {
+		t := ex.evalBoolEnv(en, env)
+		ex.assume(st, t)
+	}
+	for _, en := range c.Records {
 		t := ex.evalBoolEnv(en, env)
 		ex.assume(st, t)
 	}
@@ -650,8 +675,46 @@ func (ex *executor) frameObligations(st *state, env *specEnv, sfx string, pos to
 
 func (ex *executor) execGo(st *state, g *ssa.Go) {
 	r := ex.root()
-	r.abstracted["go statement (goroutine body not executed)"]++
-	ex.havocAll(st, "go statement")
+	r.abstracted["go statement (goroutine body not executed; its static write set is havocked at the spawn point)"]++
+	eff := ex.callEffects(g.Common())
+	if mc, ok := g.Common().Value.(*ssa.MakeClosure); ok {
+		eff = ex.eng.staticEffects(mc.Fn.(*ssa.Function), ex.depth)
+		// captured variables written by the closure
+		cfn := mc.Fn.(*ssa.Function)
+		for bi, b := range mc.Bindings {
+			written := false
+			if bi < len(cfn.FreeVars) {
+				fv := cfn.FreeVars[bi]
+				for _, blk := range cfn.Blocks {
+					for _, in := range blk.Instrs {
+						if stp, ok := in.(*ssa.Store); ok && stp.Addr == fv {
+							written = true
+						}
+					}
+				}
+			}
+			if !written {
+				continue
+			}
+			if pt, ok := b.Type().Underlying().(*types.Pointer); ok {
+				for _, cn := range ex.classNames("obj", pt.Elem(), nil, "") {
+					eff.classes[cn] = true
+				}
+			}
+		}
+	}
+	if eff.all {
+		ex.havocAll(st, "go statement")
+		return
+	}
+	tag := ex.fresh("go")
+	for cn := range eff.classes {
+		cls := ex.eng.classes[cn]
+		if cls == nil {
+			continue
+		}
+		st.heaps[cn] = ex.heapOf(st, cls).Havoc(tag, nil)
+	}
 }
 
 // ---------- builtins ----------
